@@ -3,6 +3,8 @@
 package wat2c
 
 import (
+	"math"
+	"strconv"
 	"bytes"
 	"fmt"
 	"strings"
@@ -64,4 +66,18 @@ func insString(i ast.Instruction) string {
 	var buf bytes.Buffer
 	printer.PrintInstruction(&buf, "", i, 0)
 	return strings.TrimSpace(buf.String())
+}
+
+// cFloat returns a C literal with exactly the value v (a hexadecimal floating
+// constant; "%f" keeps only 6 decimals).
+func cFloat(v float64, bitSize int) string {
+	switch {
+	case math.IsNaN(v):
+		return "NAN"
+	case math.IsInf(v, 1):
+		return "INFINITY"
+	case math.IsInf(v, -1):
+		return "-INFINITY"
+	}
+	return strconv.FormatFloat(v, 'x', -1, bitSize)
 }
